@@ -423,6 +423,60 @@ class Flow:
         return True, '%s := newest value each step; %s := evicted value on eviction (first value initially)' % (newest, oldest)
 
     # ------------------------------------------------------------------ extrema
+    def scan_coverage(self, val, seq):
+        """None if the rescan `val` provably visits every element of `seq` (seed element included), else a reason."""
+        if val[0] == 'reduce':
+            for y in subterms(val[2]):
+                if y[0] in ('skip', 'take', 'step_by', 'skip_while', 'take_while', 'filter'):
+                    return 'the rescan iterates over an adapted sequence (%s): not every element is visited' % y[0]
+            return None
+        if seq is None:
+            return 'the rescan loop does not index a sequence in a recognised way: coverage cannot be established'
+        L = val[1]
+        info = self.m.up_vg.loops.get(L)
+        if not info:
+            return None
+        it = info['iter']
+        if it[0] != 'range':
+            for y in subterms(it):
+                if y[0] in ('skip', 'take', 'step_by', 'skip_while', 'take_while', 'filter'):
+                    return 'the rescan iterates over an adapted sequence (%s): not every element is visited' % y[0]
+            return None
+        lo, hi, incl = it[1], it[2], it[3]
+        idxs = {x[2] for x in subterms(val[4]) if x[0] == 'get' and x[1] == seq}
+        i = ('idx', L)
+        n = ('len', seq)
+        one = lit(1, 'i')
+        mirrored = {op('isub', op('isub', n, one), i), op('isub', n, op('iadd', i, one)), op('isub', op('isub', n, i), one)}
+        if not idxs or not all(ix == i or ix in mirrored for ix in idxs):
+            return 'the rescan reads %s: not the loop index or its mirror image, coverage cannot be established' % [tstr(x)[:30] for x in idxs]
+        is_m = all(ix in mirrored for ix in idxs)
+        # seed position
+        init = val[3]
+        seed = None
+        if init == ('front', seq) or init == ('get', seq, lit(0, 'i')):
+            seed = 'first'
+        elif init == ('back', seq) or init == ('get', seq, op('isub', n, one)):
+            seed = 'last'
+        def eq(a, b):
+            return a == b or entails_h(self.base, op('eq', a, b))
+        end = hi if not incl else op('iadd', hi, one)
+        full = eq(lo, lit(0, 'i')) and eq(end, n)
+        if full:
+            return None
+        # one element may be left out of the loop if it is the seed
+        skipped_first = eq(lo, one) and eq(end, n)           # indices 1..n-1 visited
+        skipped_last = eq(lo, lit(0, 'i')) and eq(end, op('isub', n, one))   # indices 0..n-2 visited
+        missing = None
+        if skipped_first:
+            missing = 'last' if is_m else 'first'
+        elif skipped_last:
+            missing = 'first' if is_m else 'last'
+        if missing is not None and seed == missing:
+            return None
+        return ('the rescan loop runs over %s..%s%s and is seeded with %s: some element of the window is never compared' % (
+            tstr(lo), '=' if incl else '', tstr(hi)[:40], tstr(init)[:40]))
+
     def extremum(self, cell):
         """Rescanned-extremum classification + X1 freshness + W4 scan order. Returns (kind or None, ok, detail)."""
         try:
@@ -460,6 +514,10 @@ class Flow:
                     for y in subterms(seq):
                         if y[0] == 'in' and y[1] in self.queues:
                             scan_queues.add(y[1])
+                # W5: the scan visits every element of the sequence
+                cov = self.scan_coverage(val, seq)
+                if cov is not None:
+                    return kind or 'scan', False, cov
                 # W4: the scanned sequence must not contain the evicted element
                 if seq is not None:
                     bad = False
